@@ -8,12 +8,13 @@ Import ListNotations.
 From JS Require Import Common.Wire Text.RegexType Text.RegexTypeProofs.
 
 Theorem C18_extract_sound : forall content p, extract content = RxOk p ->
-  exists rest, content = [x2f] ++ p ++ [x2f] ++ rest /\ p <> [] /\
+  exists rest, content = [x2f] ++ p ++ [x2f] ++ rest /\
     has_unescaped_slash false p = false /\ ends_escaped false p = false.
 Proof. exact extract_sound. Qed.
 Print Assumptions C18_extract_sound.
 
-Theorem C18_extract_complete : forall p rest, p <> [] ->
+(* since the fix 2b68297 also for the empty pattern: the token // *)
+Theorem C18_extract_complete : forall p rest,
   has_unescaped_slash false p = false -> ends_escaped false p = false ->
   extract ([x2f] ++ p ++ [x2f] ++ rest) = RxOk p.
 Proof. exact extract_complete. Qed.
@@ -37,9 +38,11 @@ Proof. vm_compute. reflexivity. Qed.
 Example C18_paired_backslash :
   extract (of_string "/a\\/ x"%string) = RxOk (of_string "a\\"%string).
 Proof. vm_compute. reflexivity. Qed.
+Example C18_empty_pattern : extract (of_string "// x"%string) = RxOk [] /\ regex_len (of_string "// x"%string) = Some 2.
+Proof. vm_compute. split; reflexivity. Qed.
 Example C18_no_end : extract (of_string "/a"%string) = RxNoEnd.
 Proof. vm_compute. reflexivity. Qed.
-Example C18_empty_pattern : extract (of_string "//"%string) = RxNoEnd.
+Example C18_empty_pattern_alone : extract (of_string "//"%string) = RxOk [].
 Proof. vm_compute. reflexivity. Qed.
 Example C18_empty_content : extract (of_string ""%string) = RxEmptyContent.
 Proof. vm_compute. reflexivity. Qed.
